@@ -189,7 +189,7 @@ class SAAM:
         self.Q: np.ndarray = None
         if self.acc is not None and self.mag is not None:
             self.Q = self._compute_all(self.acc, self.mag)
-            if representation == 'rotmat':
+            if representation.lower() == 'rotmat':     # same spelling rule as the validation above
                 self.A = Quaternion(self.Q).to_DCM() if self.Q.ndim < 2 else QuaternionArray(self.Q).to_DCM()
 
     def _guard_clauses_parameters(self, representation: str) -> None:
